@@ -214,10 +214,15 @@ impl TerminalState {
     }
 
     pub fn set_margins_top_bottom(&mut self, top: i32, bottom: i32) {
+        // margins outside the screen are clamped to it (an unvalidated DECSTBM parameter made later row arithmetic overflow)
+        let top = top.max(0);
+        let bottom = bottom.min(self.get_height().saturating_sub(1));
         self.margins_top_bottom = if top > bottom { None } else { Some((top, bottom)) };
     }
 
     pub fn set_margins_left_right(&mut self, left: i32, right: i32) {
+        let left = left.max(0);
+        let right = right.min(self.get_width().saturating_sub(1));
         self.margins_left_right = if left > right { None } else { Some((left, right)) };
     }
 
